@@ -222,6 +222,12 @@ def scenario_check(prop, tier, seed, items, evaluate, sig_of, bounds, assumption
     native = Native(hooks)
     nv = n_validate if n_validate is not None else (60 if tier == 'quick' else 200)
     picks = rnd.sample(items, min(nv, len(items)))
+    # ... plus one scenario of every cell, so that small families are always part of the translator validation
+    seen_cells = {str(c) for c, _ in picks}
+    for c, sc in items:
+        if str(c) not in seen_cells and len(seen_cells) < nv + 60:
+            seen_cells.add(str(c))
+            picks.append((c, sc))
     validate(rep, native, [random_concrete(s, rnd) for _, s in picks], driver_setup, symrun, natrun)
     for r in parallel(items, make_worker(prop, evaluate, driver_setup, symrun), chunksize=chunksize):
         rep.absorb(r)
